@@ -186,6 +186,21 @@ CLAIMS["C07"] = dict(
          "SQLAlchemy's rendering of non-string literals is trusted.",
     technique="partial evaluation of literal encoders x reference literal readers per dialect + raw-SQL gateway scan")
 
+CLAIMS["C01"] = dict(
+    level="other", engine="pyflow",
+    text="Round-trip equality over all accepted strings is NOT decided. Decided are the mechanisms the statement names, as "
+         "structural rules over all three grammars and all ~80 AST printers: every `( expr|select|union|query )` production "
+         "marks the returned node (must-set dataflow), ASTNode.to_string composes alias(parentheses(get_string())) and "
+         "overriding classes honour both; every identifier-shaped word the ordered lexer turns into a keyword that the grammar "
+         "does not accept as id is in the statically evaluated reserved set of the identifier printer; every field to_tree "
+         "shows is read by the SQL printer; a field is printed under its own guard only unless the grammar makes the guard "
+         "implied (per-production constructor analysis); no printer puts a value between quote characters or uses repr() as "
+         "SQL encoder; literal and identifier escaping agree with the lexer (codec tables of C04); single-token leaves print "
+         "text that lexes back to that token.",
+    note="Necessary conditions only: keyword order / optional clauses / spacing of every get_string versus its grammar rule "
+         "are the round trip itself and are not analysed; copy() is C18.",
+    technique="must-set dataflow on parenthesis rules + reserved-set evaluation vs lexer simulation + printer/tree field matrices")
+
 NA_PENDING = "check under construction in this session; not claimed until its rule module is committed"
 
 
